@@ -124,6 +124,8 @@ func checkC07(c *Ctx) {
 	}
 	c.Rule("R7.7", "logging through an encoder never modifies it: EncodeEntry/Clone/writeContext only read the shared receiver", 3)
 	c9EncoderPurity(c, "R7.7")
+	c.Rule("R7.11", "no value built from a parent shares a slice tail with it: appends onto receiver/argument-owned slices are capped or the owner's own growth (all packages, helper-transparent)", 1)
+	c7AppendsAll(c, "R7.11")
 	c.Rule("R7.8", "namespaces nest per object: the open-namespace counter accounts for exactly the braces still open, so a nested object never closes (or forgets) the logger's own namespace", 3)
 	c1Namespaces(c, "R7.8")
 	c7Clone(c)
@@ -791,4 +793,148 @@ func c7Eager(c *Ctx) {
 		}
 		c.Check(ok, "R7.10", cc.String(), "clone-carries-context", cc.Pos(), "the console encoder is cloned through a JSON-encoder clone that copies the accumulated context bytes (uses %v); a bare pooled clone would drop the fields of every ancestor logger", used)
 	}
+}
+
+// c7AppendsAll: the same discipline for every function of the analysed packages, helper-transparent: an append onto
+// a slice owned by the receiver / an argument object (directly, or by handing the slice to a function that appends
+// onto that parameter) must be capacity-capped, unless the result goes straight back into the very field it was read
+// from (the owner growing its own slice). Otherwise two values built from the same parent - two derived
+// loggers/handlers, or two emitted entries - share one backing-array tail and the later one overwrites the earlier.
+func c7AppendsAll(c *Ctx, rule string) {
+	type key struct {
+		f *ssa.Function
+		i int
+	}
+	capped := func(base ssa.Value) bool {
+		sl, ok := base.(*ssa.Slice)
+		return ok && sl.Max != nil && sl.High != nil && Desc(sl.Max) == Desc(sl.High)
+	}
+	// the field the slice was read from (through re-slicing)
+	srcField := func(v ssa.Value) *ssa.FieldAddr {
+		for k := 0; k < 6; k++ {
+			switch x := v.(type) {
+			case *ssa.Slice:
+				v = x.X
+				continue
+			case *ssa.UnOp:
+				if x.Op == token.MUL {
+					fa, _ := x.X.(*ssa.FieldAddr)
+					return fa
+				}
+			}
+			break
+		}
+		return nil
+	}
+	selfUpdate := func(call *ssa.Call, base ssa.Value) bool {
+		fa := srcField(base)
+		if fa == nil || call.Referrers() == nil {
+			return false
+		}
+		n := 0
+		for _, r := range *call.Referrers() {
+			switch y := r.(type) {
+			case *ssa.DebugRef:
+			case *ssa.Store:
+				fb, ok := y.Addr.(*ssa.FieldAddr)
+				if !ok || y.Val != ssa.Value(call) || fb.Field != fa.Field || Desc(fb.X) != Desc(fa.X) {
+					return false
+				}
+				n++
+			default:
+				return false
+			}
+		}
+		return n > 0
+	}
+	paramIndex := func(f *ssa.Function, v ssa.Value) int {
+		v = Strip(v)
+		for i, p := range f.Params {
+			if v == ssa.Value(p) {
+				if _, isSlice := types.Unalias(p.Type()).Underlying().(*types.Slice); isSlice {
+					return i
+				}
+			}
+		}
+		return -1
+	}
+	var funcs []*ssa.Function
+	c.EachRootFunc(func(fn *ssa.Function) { funcs = append(funcs, fn) })
+	appendsOnto := map[key]bool{}
+	// what a call instruction appends onto: (base value, description) pairs
+	type site struct {
+		base ssa.Value
+		what string
+		call *ssa.Call
+	}
+	sitesIn := func(f *ssa.Function) []site {
+		var out []site
+		AllInstrs(f, func(i ssa.Instruction) {
+			call, ok := i.(*ssa.Call)
+			if !ok {
+				return
+			}
+			if CallBuiltin(call) == "append" && len(call.Call.Args) == 2 {
+				out = append(out, site{call.Call.Args[0], "append", call})
+				return
+			}
+			if sc := call.Call.StaticCallee(); sc != nil {
+				for ai, a := range call.Call.Args {
+					if appendsOnto[key{sc, ai}] {
+						out = append(out, site{a, sc.Name() + " (which appends onto this argument)", call})
+					}
+				}
+			}
+		})
+		return out
+	}
+	for changed := true; changed; {
+		changed = false
+		for _, f := range funcs {
+			for _, s := range sitesIn(f) {
+				if capped(s.base) {
+					continue
+				}
+				b := s.base
+				if sl, ok := b.(*ssa.Slice); ok {
+					b = sl.X
+				}
+				if pi := paramIndex(f, b); pi >= 0 && !appendsOnto[key{f, pi}] {
+					appendsOnto[key{f, pi}] = true
+					changed = true
+				}
+			}
+		}
+	}
+	n := 0
+	for _, f := range funcs {
+		if len(f.Params) == 0 {
+			continue
+		}
+		top := f
+		for top.Parent() != nil {
+			top = top.Parent()
+		}
+		var bad []string
+		for _, s := range sitesIn(f) {
+			owner := ""
+			for _, p := range top.Params {
+				if ownedBy(s.base, p, 0) {
+					owner = p.Name()
+				}
+			}
+			if owner == "" {
+				continue
+			}
+			n++
+			if capped(s.base) || (s.what == "append" && selfUpdate(s.call, s.base)) {
+				continue
+			}
+			bad = append(bad, s.what+" onto "+Desc(s.base)+", a slice owned by "+owner+", without a capacity cap and not as that field's own growth")
+		}
+		if len(bad) > 0 {
+			c.Bad(rule, FuncKey(f), "capped-append", f.Pos(), "values built from a parent never share a backing-array tail with it or each other: %v", bad)
+		}
+	}
+	c.Check(n >= 5, rule, "all functions", "capped-append/sites", token.NoPos, "%d appends onto slices owned by a receiver/argument object examined in all packages (each capped, or the owner's own growth)", n)
 }
